@@ -77,13 +77,23 @@ Definition e_tout (o : tout) : val :=
       VL (map VN (to_replies o)); VL (map VB (to_chal o)); VL (map e_tevent (to_events o));
       VN (e_tfin (to_fin o))].
 
+(* one step: the output plus Server.extensions after it (what an EHLO reply of this step lists) *)
+Definition e_trip (x : tstate * tout * tstate) : val :=
+  match e_tout (snd (fst x)) with
+  | VL fields =>
+      let xs := ex (t_st (snd x)) in
+      VL (fields ++ [VL [vbool (x_base xs); vbool (x_starttls xs); vbool (x_auth xs)]])
+  | v => v
+  end.
+
 Definition total_len (cs : list bytes) : nat := fold_right (fun c n => (List.length c + n)%nat) O cs.
 
 Definition e_mode (m : mode) : N :=
   match m with MCmd => 0 | MAuthWait _ _ _ => 1 | MData _ => 2 end.
 
 (* c08_session [cfg; [cram; msgid]; vtable; queued table; q table; hs; plain chunks; tls chunks]
-   = [outs; final session state; final mode; left in recv_buffer; its bytes all TLS] *)
+   = [outs (each with the extension flags after the step); final session state; final mode;
+      left in recv_buffer; its bytes all TLS] *)
 Definition e_session (v : val) : val :=
   match v with
   | VL [cfg; VL [cram; VB msgid]; VL vt; VL qt; VL qs; hs; VL pl; VL tl] =>
@@ -92,7 +102,7 @@ Definition e_session (v : val) : val :=
       let tr := t_session (std_mechs (get_bool cram) msgid) fuel (d_cfg cfg)
                           (d_env vt qt qs (get_bool hs)) w in
       let fin_ts := match rev tr with (_, _, ts) :: _ => ts | [] => t_init (d_cfg cfg) w end in
-      VL [VL (map e_tout (outs tr)); e_state (t_st fin_ts); VN (e_mode (t_mode fin_ts));
+      VL [VL (map e_trip tr); e_state (t_st fin_ts); VN (e_mode (t_mode fin_ts));
           VB (untag (t_buf fin_ts)); vbool (all_tls (t_buf fin_ts))]
   | _ => verr
   end.
